@@ -456,3 +456,290 @@ Proof. body_rows (g_row k_sale_price vp_dollar_dcd) blk_sale 15%nat. Qed.
 Lemma body_fees st gs : Forall gp_ok gs ->
   all_matches (m_row k_comission_fee vp_dollar_dcd) (eso_body st gs) = map (fun gr => gp_ea gr ++ 46 :: gp_eb gr) gs.
 Proof. body_rows (g_row k_comission_fee vp_dollar_dcd) blk_fee 19%nat. Qed.
+
+(* ------------------------------------------------------------------ the block area as one field *)
+Definition is_blk (c : N) : bool :=
+  is_digit c || is_upper c || is_lower c || (c =? 32) || (c =? 10) || (c =? 36) || (c =? 47) || (c =? 44) || (c =? 46).
+Lemma c_blk_reps c (H : is_blk c = true) : In c (nrange 48 10 ++ nrange 65 26 ++ nrange 97 26 ++ [32; 10; 36; 47; 44; 46]).
+Proof.
+  unfold is_blk in H. repeat (apply orb_true_iff in H; destruct H as [H|H]).
+  - unfold is_digit in H. range_tac. apply in_app_l, in_nrange; lia.
+  - unfold is_upper in H. range_tac. apply in_app_r, in_app_l, in_nrange; lia.
+  - unfold is_lower in H. range_tac. apply in_app_r, in_app_r, in_app_l, in_nrange; lia.
+  - apply N.eqb_eq in H. subst. apply in_app_r, in_app_r, in_app_r. cbn. tauto.
+  - apply N.eqb_eq in H. subst. apply in_app_r, in_app_r, in_app_r. cbn. tauto.
+  - apply N.eqb_eq in H. subst. apply in_app_r, in_app_r, in_app_r. cbn. tauto.
+  - apply N.eqb_eq in H. subst. apply in_app_r, in_app_r, in_app_r. cbn. tauto.
+  - apply N.eqb_eq in H. subst. apply in_app_r, in_app_r, in_app_r. cbn. tauto.
+  - apply N.eqb_eq in H. subst. apply in_app_r, in_app_r, in_app_r. cbn. tauto.
+Qed.
+Definition c_blk : cls := {| mem := is_blk; reps := _; reps_ok := c_blk_reps |}.
+
+Definition seg_in (p : N -> bool) (s : seg) : bool :=
+  match s with SL t => forallb p t | SF k _ => forallb p (reps k) end.
+Lemma flat_in p d : Forall seg_ok d -> forallb (seg_in p) d = true -> forallb p (flat d) = true.
+Proof.
+  intros Hd. induction Hd as [|s d Hs Hd IH]; intros H; [reflexivity|].
+  cbn [forallb] in H. apply andb_true_iff in H. destruct H as [H1 H2].
+  cbn [flat]. rewrite forallb_app, (IH H2), andb_true_r.
+  destruct s as [t|k v]; cbn [seg_in seg_text] in *; [exact H1|].
+  destruct Hs as [_ Hm]. rewrite forallb_forall in *. intros x Hx. apply H1, reps_ok, Hm, Hx.
+Qed.
+Lemma gblk_in_blk st i gr : gp_ok gr -> forallb is_blk (gblk st i gr) = true.
+Proof.
+  intros H. unfold gblk. apply flat_in; [apply grant_segs_ok; exact H|]. destruct st; vm_compute; reflexivity.
+Qed.
+Lemma blocks_in_blk st gs : Forall gp_ok gs -> forall i, forallb is_blk (blocks (gblk st) i gs) = true.
+Proof.
+  induction 1 as [|gr gs Hg Hgs IH]; intros i; [reflexivity|].
+  cbn [blocks]. rewrite forallb_app, (gblk_in_blk st i gr Hg), IH. reflexivity.
+Qed.
+Lemma blocks_nonnil st gs i : gs <> [] -> blocks (gblk st) i gs <> [].
+Proof.
+  destruct gs as [|gr gs]; [congruence|]. intros _ H. apply (f_equal (@length N)) in H.
+  cbn [blocks] in H. rewrite app_length in H. pose proof (gblk_nonnil st i gr). cbn [length] in H. lia.
+Qed.
+
+(* a key cannot straddle from a text into a continuation none of whose prefixes is a proper suffix of the key *)
+Fixpoint tails (k : text) : list text := match k with [] => [] | _ :: r => k :: tails r end.
+Lemma strip_prefix_in_field T : forall u K r,
+  forallb (fun K2 => negb (starts_with K2 T)) (tails K) = true ->
+  strip_prefix K (u ++ T) = Some r -> exists u0 u', u = u0 ++ u' /\ r = u' ++ T.
+Proof.
+  induction u as [|c u IH]; intros K r HK H.
+  - destruct K as [|k K]; [cbn in H; inversion H; exists [], []; split; reflexivity|].
+    cbn [tails forallb] in HK. apply andb_true_iff in HK. destruct HK as [H1 _]. apply negb_true_iff in H1.
+    unfold starts_with in H1. cbn [app] in H. rewrite H in H1. discriminate.
+  - destruct K as [|k K]; [cbn in H; inversion H; exists [], (c :: u); split; reflexivity|].
+    cbn [app strip_prefix] in H. destruct (k =? c); [|discriminate].
+    cbn [tails forallb] in HK. apply andb_true_iff in HK. destruct HK as [_ HK].
+    destruct (IH K r HK H) as (u0 & u' & -> & ->). exists (c :: u0), u'. split; reflexivity.
+Qed.
+
+(* ------------------------------------------------------------------ tactics (as in EtradeTextRT.v) *)
+Ltac trunc1 :=
+  idtac; match goal with
+  | |- context [flat (?s1 :: ?R)] =>
+      change (flat (s1 :: R)) with (seg_text s1 ++ flat R); generalize (flat R); intro
+  end.
+Ltac const_hit := erewrite find_hit; [|vm_compute; reflexivity].
+Ltac const_get Hg Hok :=
+  apply is_ok_ex; unfold get1; seek_with Hg Hok; trunc1; const_hit; reflexivity.
+
+(* ------------------------------------------------------------------ the exercise type *)
+Lemma prefixes_line_app v : forallb not_nl v = true -> forall acc s,
+  exists l, prefixes_line acc (v ++ s) = l ++ prefixes_line (rev v ++ acc) s.
+Proof.
+  induction v as [|c v IH]; intros Hv acc s; [exists []; reflexivity|].
+  cbn [forallb] in Hv. apply andb_true_iff in Hv. destruct Hv as [Hc Hv]. unfold not_nl in Hc. apply negb_true_iff in Hc.
+  destruct (IH Hv (c :: acc) s) as [l El]. exists ((acc, (c :: v) ++ s) :: l).
+  cbn [app prefixes_line]. rewrite Hc, El. cbn [rev]. rewrite <- app_assoc. reflexivity.
+Qed.
+
+Definition type_cand (pr : text * text) : option (text * text) :=
+  match sp1_registration (snd pr) with Some rest => Some (rev (fst pr), rest) | None => None end.
+Lemma type_tail_eval st acc X :
+  first_some type_cand (rev (prefixes_line acc (sty st eso0_3 eso1_3 ++ X)))
+  = Some (rev acc, skipn 13 (sty st eso0_3 eso1_3) ++ X).
+Proof. destruct st; reflexivity. Qed.
+
+Lemma g_exercise_type : guarded m_exercise_type (glit k_exercise_type).
+Proof. exact (guarded_lit _ _). Qed.
+Lemma g_exercise_date : guarded m_exercise_date (glit k_exercise_date_c).
+Proof. exact (guarded_lit _ _). Qed.
+Lemma g_eso_shares_sold : guarded m_eso_shares_sold (glit k_shares_sold).
+Proof. exact (guarded_lit _ _). Qed.
+
+Lemma m_exercise_type_hit st ty X :
+  forallb is_typec ty = true -> hd_in nonspace ty = true ->
+  m_exercise_type (k_exercise_type ++ 32 :: ty ++ sty st eso0_3 eso1_3 ++ X)
+  = Some (ty, skipn 13 (sty st eso0_3 eso1_3) ++ X).
+Proof.
+  intros Ht Hh. unfold m_exercise_type, lit. rewrite strip_prefix_app. cbn [obind].
+  change (is_space 32) with true. cbn iota.
+  destruct ty as [|c ty']; [discriminate|]. cbn [hd_in] in Hh. unfold nonspace in Hh. apply negb_true_iff in Hh.
+  cbn [app skip_spaces]. rewrite Hh.
+  change (c :: ty' ++ sty st eso0_3 eso1_3 ++ X) with ((c :: ty') ++ sty st eso0_3 eso1_3 ++ X).
+  destruct (prefixes_line_app (c :: ty') (forallb_imp is_typec not_nl _ typec_not_nl Ht) [] (sty st eso0_3 eso1_3 ++ X)) as [l El].
+  rewrite El, rev_app_distr, first_some_app, app_nil_r.
+  change (fun pr : text * text => match sp1_registration (snd pr) with
+                                  | Some rest => Some (rev (fst pr), rest) | None => None end) with type_cand.
+  rewrite type_tail_eval, rev_involutive. reflexivity.
+Qed.
+
+(* "Shares Sold\s+([\d,\.]+)" cannot match inside the exercise type (no digit, comma or point there), nor
+   straddle into " Registration" *)
+Lemma typec_run_none u T' : forallb is_typec u = true ->
+  run1 is_dcd (skip_spaces (u ++ 32 :: 82 :: T')) = None.
+Proof.
+  induction u as [|c u IH]; intros Hu; [reflexivity|].
+  cbn [forallb] in Hu. apply andb_true_iff in Hu. destruct Hu as [Hc Hu]. cbn [app skip_spaces].
+  destruct (is_space c) eqn:E; [apply IH; exact Hu|].
+  apply run1_hd. cbn [hd_in]. unfold is_typec in Hc. unfold is_dcd, is_digit, is_comma, is_dot.
+  repeat (apply orb_true_iff in Hc; destruct Hc as [Hc|Hc]).
+  - unfold is_upper in Hc. range_tac. repeat (apply orb_false_iff; split); try (apply N.eqb_neq; lia).
+    apply andb_false_iff. right. apply N.leb_gt. lia.
+  - unfold is_lower in Hc. range_tac. repeat (apply orb_false_iff; split); try (apply N.eqb_neq; lia).
+    apply andb_false_iff. right. apply N.leb_gt. lia.
+  - apply N.eqb_eq in Hc. subst c. reflexivity.
+  - apply N.eqb_eq in Hc. subst c. discriminate E.
+Qed.
+Lemma shares_sold_not_in_type u T' : forallb is_typec u = true ->
+  m_eso_shares_sold (u ++ 32 :: 82 :: T') = None.
+Proof.
+  intros Hu. unfold m_eso_shares_sold, lit.
+  destruct (strip_prefix k_shares_sold (u ++ 32 :: 82 :: T')) as [r|] eqn:E; [|reflexivity]. cbn [obind].
+  destruct (strip_prefix_in_field (32 :: 82 :: T') u k_shares_sold r eq_refl E) as (u0 & u' & -> & ->).
+  rewrite forallb_app in Hu. apply andb_true_iff in Hu. destruct Hu as [_ Hu'].
+  destruct u' as [|c u'].
+  - reflexivity.
+  - cbn [app sp1]. destruct (is_space c); [|reflexivity]. cbn [obind].
+    cbn [forallb] in Hu'. apply andb_true_iff in Hu'. destruct Hu' as [_ Hu'']. apply typec_run_none. exact Hu''.
+Qed.
+Lemma find_shares_sold_skip_type ty T' : forallb is_typec ty = true ->
+  find m_eso_shares_sold (ty ++ 32 :: 82 :: T') = find m_eso_shares_sold (32 :: 82 :: T').
+Proof.
+  induction ty as [|c ty IH]; intros Ht; [reflexivity|].
+  cbn [app]. rewrite find_cons_none.
+  - apply IH. cbn [forallb] in Ht. apply andb_true_iff in Ht. exact (proj2 Ht).
+  - exact (shares_sold_not_in_type (c :: ty) T' Ht).
+Qed.
+
+(* ------------------------------------------------------------------ the document *)
+Definition e4pre (st : bool) : text := firstn (length (sty st eso0_4 eso1_4) - 18) (sty st eso0_4 eso1_4).
+Lemma e4_split st : sty st eso0_4 eso1_4 = e4pre st ++ eso_hd.
+Proof. destruct st; reflexivity. Qed.
+
+Section ESO.
+Variables sym m d y ty sold : text.
+Variable gs : list gp.
+Hypothesis Hsym : sym <> [] /\ forallb is_updot sym = true /\ forallb is_symc sym = true.
+Hypothesis Hdate : digits m /\ digits d /\ digits y /\ m <> [] /\ d <> [] /\ y <> [].
+Hypothesis Hty : forallb is_typec ty = true /\ ty <> [] /\ hd_in nonspace ty = true.
+Hypothesis Hsold : cintparts sold.
+Hypothesis Hgs : Forall gp_ok gs /\ gs <> [].
+
+Definition BLK (st : bool) : text := blocks (gblk st) 1 gs.
+Definition eso_head (st : bool) : list seg :=
+  [SL (sty st eso0_0 eso1_0); SF c_updot sym; SL (sty st eso0_1 eso1_1); SF c_updot sym; SL (sty st eso0_2 eso1_2)].
+Definition eso_dtail (st : bool) : list seg :=
+  [SF c_updot sym; SL (sty st eso0_2 eso1_2); SF c_type ty; SL (sty st eso0_3 eso1_3); SF c_dc sold;
+   SL (sty st eso0_4 eso1_4); SF c_blk (BLK st); SL (sty st eso0_9 eso1_9)] ++ dateseg 47 m d y
+  ++ [SL (sty st eso0_10 eso1_10); SF c_updot sym; SL (sty st eso0_11 eso1_11)].
+Definition eso_doc (st : bool) : list seg :=
+  [SL (sty st eso0_0 eso1_0); SF c_updot sym; SL (sty st eso0_1 eso1_1)] ++ eso_dtail st.
+
+Lemma eso_dtail_ok st : Forall seg_ok (eso_dtail st).
+Proof.
+  destruct Hsym as (? & ? & ?), Hdate as (? & ? & ? & ? & ? & ?), Hty as (? & ? & ?), Hgs as [G1 G2].
+  pose proof (cint_nonnil _ Hsold). destruct Hsold as (? & ? & ?).
+  pose proof (blocks_in_blk st gs G1 1). pose proof (blocks_nonnil st gs 1 G2).
+  unfold eso_dtail, dateseg. cbn [app]. repeat constructor; auto.
+Qed.
+Lemma eso_doc_ok st : Forall seg_ok (eso_doc st).
+Proof.
+  unfold eso_doc. apply Forall_app. split; [|apply eso_dtail_ok]. destruct Hsym as (? & ? & ?). repeat constructor; auto.
+Qed.
+
+Lemma eso_employee st : exists x, get1 m_employee (flat (eso_doc st)) = Ok x.
+Proof. destruct st; [const_get g_employee (eso_doc_ok true)|const_get g_employee (eso_doc_ok false)]. Qed.
+Lemma eso_account st : exists x, get1 m_account (flat (eso_doc st)) = Ok x.
+Proof. destruct st; [const_get g_account (eso_doc_ok true)|const_get g_account (eso_doc_ok false)]. Qed.
+Lemma eso_no_later_group st : find_last sym_group_at (flat (eso_dtail st)) = None.
+Proof.
+  destruct st; (apply (find_last_none sym_group_at _ guarded_sym_group sym_group_nil);
+    [apply eso_dtail_ok | vm_compute; reflexivity]).
+Qed.
+Lemma eso_symbol st : get1 m_symbol (flat (eso_doc st)) = Ok sym.
+Proof.
+  destruct Hsym as (Hn & _ & Hsc). unfold get1. destruct st.
+  - seek_with g_symbol (eso_doc_ok true). erewrite find_hit; [reflexivity|].
+    refine (m_symbol_hit (41 :: 32 :: nil) (removelast eso1_1) sym (flat (eso_dtail true)) Hn Hsc _ (eso_no_later_group true)).
+    eexists. reflexivity.
+  - seek_with g_symbol (eso_doc_ok false). erewrite find_hit; [reflexivity|].
+    refine (m_symbol_hit (41 :: 32 :: nil) (removelast eso0_1) sym (flat (eso_dtail false)) Hn Hsc _ (eso_no_later_group false)).
+    eexists. reflexivity.
+Qed.
+
+Lemma eso_type st : exists rest, get1 m_exercise_type (flat (eso_doc st)) = Ok (ty, rest).
+Proof.
+  destruct Hty as (T1 & T2 & T3). apply get1_of_fst.
+  destruct st.
+  - seek_with g_exercise_type (eso_doc_ok true).
+    match goal with |- context [flat (?s1 :: ?s2 :: ?s3 :: ?R)] =>
+      change (flat (s1 :: s2 :: s3 :: R)) with (seg_text s1 ++ seg_text s2 ++ seg_text s3 ++ flat R); generalize (flat R); intro X end.
+    erewrite find_hit; cycle 1. { cbn [seg_text]. exact (m_exercise_type_hit true ty X T1 T3). } reflexivity.
+  - seek_with g_exercise_type (eso_doc_ok false).
+    match goal with |- context [flat (?s1 :: ?s2 :: ?s3 :: ?R)] =>
+      change (flat (s1 :: s2 :: s3 :: R)) with (seg_text s1 ++ seg_text s2 ++ seg_text s3 ++ flat R); generalize (flat R); intro X end.
+    erewrite find_hit; cycle 1. { cbn [seg_text]. exact (m_exercise_type_hit false ty X T1 T3). } reflexivity.
+Qed.
+
+Lemma eso_date st : exists rest, get1 m_exercise_date (flat (eso_doc st)) = Ok ((m, d, y), rest).
+Proof.
+  destruct Hdate as (? & ? & ? & ? & ? & ?). apply get1_of_fst.
+  destruct st; [seek_with g_exercise_date (eso_doc_ok true)|seek_with g_exercise_date (eso_doc_ok false)];
+  (trunc7; erewrite find_hit; cycle 1;
+   [ unfold m_exercise_date, lit, k_exercise_date_c; cbn [seg_text app strip_prefix N.eqb Pos.eqb obind];
+     rewrite sp1_sp; cbn [obind]; rewrite skip_sp_digits by auto; rewrite date3_hit by (auto; reflexivity); reflexivity
+   | reflexivity ]).
+Qed.
+
+Definition eso_header_segs (st : bool) : list seg :=
+  [SL (sty st eso0_0 eso1_0); SF c_updot sym; SL (sty st eso0_1 eso1_1); SF c_updot sym; SL (sty st eso0_2 eso1_2);
+   SF c_type ty; SL (sty st eso0_3 eso1_3); SF c_dc sold].
+Definition eso_header (st : bool) : text := flat (eso_header_segs st) ++ e4pre st.
+Definition eso_after_date (st : bool) : list seg :=
+  [SL [58; 32; 32]] ++ dateseg 47 m d y ++ [SL (sty st eso0_10 eso1_10); SF c_updot sym; SL (sty st eso0_11 eso1_11)].
+
+Lemma eso_doc_text st :
+  flat (eso_doc st) = eso_header st ++ eso_body st gs ++ flat (eso_after_date st).
+Proof.
+  unfold eso_doc, eso_dtail, eso_header, eso_header_segs, eso_body, eso_tl, eso_after_date, BLK.
+  cbn [app flat seg_text]. rewrite (e4_split st). 
+  assert (E9 : sty st eso0_9 eso1_9 = sty st eso0_ind eso1_ind ++ k_exercise_date ++ [58; 32; 32]) by (destruct st; reflexivity).
+  rewrite E9. rewrite <- !app_assoc. reflexivity.
+Qed.
+
+Lemma occ_nil key : key <> [] -> occ key [] = None.
+Proof. destruct key; [congruence|reflexivity]. Qed.
+
+Lemma blk_clear_details st i gr R : gp_ok gr ->
+  find_last (occ k_exercise_details) R = None -> find_last (occ k_exercise_details) (gblk st i gr ++ R) = None.
+Proof.
+  intros Hok HR. unfold gblk. apply (find_last_none_open (occ k_exercise_details) _ (occ_guarded k_exercise_details));
+    [apply grant_segs_ok; exact Hok| |exact HR].
+  unfold grant_segs. destruct st; vm_compute; reflexivity.
+Qed.
+
+Lemma eso_split_doc st : eso_split (flat (eso_doc st)) = Some (eso_header st, eso_body st gs).
+Proof.
+  destruct Hgs as [G1 G2]. unfold eso_split. rewrite eso_doc_text.
+  (* the last "Exercise Date" *)
+  assert (S1 : split_last k_exercise_date (eso_header st ++ eso_body st gs ++ flat (eso_after_date st))
+               = Some (eso_header st ++ eso_hd ++ BLK st ++ sty st eso0_ind eso1_ind,
+                       k_exercise_date ++ flat (eso_after_date st))).
+  { unfold eso_body, eso_tl. 
+    replace (eso_header st ++ (eso_hd ++ blocks (gblk st) 1 gs ++ sty st eso0_ind eso1_ind ++ k_exercise_date) ++ flat (eso_after_date st))
+      with ((eso_header st ++ eso_hd ++ BLK st ++ sty st eso0_ind eso1_ind) ++ k_exercise_date ++ flat (eso_after_date st))
+      by (unfold BLK; rewrite <- !app_assoc; reflexivity).
+    rewrite (split_last_app k_exercise_date _ _ [] (k_exercise_date ++ flat (eso_after_date st))); [rewrite app_nil_r; reflexivity|].
+    change (k_exercise_date ++ flat (eso_after_date st)) with (69 :: flat (SL (tl k_exercise_date) :: eso_after_date st)).
+    apply split_last_here; [|reflexivity]. apply split_last_none.
+    apply (find_last_none (occ k_exercise_date) _ (occ_guarded k_exercise_date) eq_refl).
+    - destruct Hsym as (? & ? & ?), Hdate as (? & ? & ? & ? & ? & ?). unfold eso_after_date, dateseg. cbn [app]. repeat constructor; auto.
+    - destruct st; vm_compute; reflexivity. }
+  rewrite S1. cbn [obind].
+  (* the last "Exercise Details" before it *)
+  assert (S2 : split_last k_exercise_details (eso_header st ++ eso_hd ++ BLK st ++ sty st eso0_ind eso1_ind)
+               = Some (eso_header st, eso_hd ++ BLK st ++ sty st eso0_ind eso1_ind)).
+  { rewrite (split_last_app k_exercise_details _ _ [] (eso_hd ++ BLK st ++ sty st eso0_ind eso1_ind)); [rewrite app_nil_r; reflexivity|].
+    change (eso_hd ++ BLK st ++ sty st eso0_ind eso1_ind)
+      with (69 :: flat [SL (tl eso_hd)] ++ (BLK st ++ sty st eso0_ind eso1_ind)).
+    apply split_last_here; [|reflexivity]. apply split_last_none.
+    apply (find_last_none_open (occ k_exercise_details) _ (occ_guarded k_exercise_details)); [repeat constructor|vm_compute; reflexivity|].
+    unfold BLK. apply (find_last_none_blocks (occ k_exercise_details) gp_ok (gblk st)); [|exact G1|].
+    - intros i gr R. apply blk_clear_details.
+    - destruct st; vm_compute; reflexivity. }
+  rewrite S2. cbn [obind]. unfold eso_body, eso_tl, BLK. rewrite <- !app_assoc. reflexivity.
+Qed.
